@@ -38,6 +38,11 @@ def instances(tier):
 def run(tier, replay=None):
     run = C.Run(PID, tier, "model_checking")
     cases = R.run_instances(run, "c06_" + tier, instances(tier), R.has_roll)
+    # long behaviours (hundreds of records in one history), sampled by TLC's simulation mode
+    deep = 400 if tier == "quick" else 1000
+    R.deep_runs(run, "c06", [R.inst("deep_l3", trig="size", count=2, limit=3, sizes=(1, 2, 4), pre="PreB", maxrec=deep, restart=8, encfail=6, faults=3),
+                        R.inst("deep_l0_t", trig="size", append=False, count=1, limit=0, sizes=(0, 1), pre="PreB", maxrec=deep, restart=8),
+                        R.inst("deep_l3_buf", trig="size", count=2, limit=3, sizes=(1, 3), pre="PreNone", maxrec=deep, restart=4, encfail=8, buf=2)], 40 if tier == "quick" else 400)
     if not run.mismatches and run.nontrivial < 50:
         raise C.ToolError("vacuous run")
     run.exhaustive = True
@@ -48,6 +53,6 @@ def run(tier, replay=None):
                 "whether the roll happened exactly when the model's size exceeded the limit; encoder failures "
                 "after 0, 1 or all units of a record (the accepted part is counted and reaches the file with the next "
                 "flush); non-trivial = a rotation happened")
-    run.assumptions = ["sizes are multiples of the unit, so byte-exact boundaries are limit*unit +- unit",
+    run.assumptions = ["long behaviours (400 / 1000 records with faults, crashes, restarts, obstacles and encoder failures) are sampled by TLC -simulate (40 / 400 per instance), not enumerated", "sizes are multiples of the unit, so byte-exact boundaries are limit*unit +- unit",
                        "byte-vs-character accounting is exercised by the C04 / C09 payloads, not here"]
     return run.finish()
